@@ -1,8 +1,30 @@
 (* C02  Balance report equals an independent ledger computation.
-   Specification: Spec/LedgerSpec.v ledger_csv (closed form over the flat list of postings).
-   The refinement proof of the pipeline model to it is in progress; what is proved is below. *)
+   Specification: Spec/LedgerSpec.v (closed form over the flat list of dated postings after accrual
+   expansion: user_entries, closing_entries, mapped_entries, period_amount, ledger_csv).
+
+   Proved at full strength: without --close, every cell of the report trees of the model equals
+   (as a rational value) the closed-form sum -- for every journal, window, interval, --last,
+   filter, mapping (any level and suffix) and remap (C02_cells_noclose).  The cumulative / --diff
+   presentation of a row is C02_row_cumulative.
+   PARTIAL: with --close the same statement includes Spec.LedgerSpec.closing_entries (the amounts
+   carried to Equity:Equity at each period start, in closed form).  The stateful CloseAccounts
+   processor has not yet been proved equal to that closed form; the full statement is
+
+     Theorem C02_cells : bc_valuation cfg = None -> balance_report cfg ds = COk (r, part) ->
+       exists dl, parse_directives ds = MOk dl /\ ... /\ forall row c col,
+         rcell row (Some col, Some c) r ==
+         dvalue (period_amount (mapped_entries cfg (user_entries (span part) (periods part) (flat_postings dl) ++
+                   (if bc_close cfg then closing_entries (flat_postings dl) (closable_keys (span part) (flat_postings dl))
+                                                         (p_start (span part)) (periods part) else [])))
+                 (acc_eqb row) c col).
+
+   and is, for now, decided only by the correspondence: on every run ledger_csv (which uses exactly
+   that expression) is compared with the binary's CSV and the model's CSV for journals with --close.
+   The layout of the CSV (row order, commodity lines, totals) is likewise compared, not proved. *)
 From Coq Require Import ZArith List Bool.
-From Knut Require Import Model.Str Model.Dec Model.Account Model.Ledger Model.Cli Spec.LedgerSpec.
+From Coq Require Import QArith.
+From Knut Require Import Model.Str Model.Dec Model.Date Model.Account Model.Ledger Model.Report Model.Cli Spec.LedgerSpec
+     Proofs.DecValue Proofs.LedgerProofs.
 Import ListNotations.
 Open Scope Z_scope.
 
@@ -29,3 +51,34 @@ Proof.
   apply Nat.min_l. apply Z2Nat.inj_le; auto with zarith.
 Qed.
 Print Assumptions C02_shorten_shape.
+
+(* Every cell of the report (value stored in the tree node `row` under column `col` and
+   commodity `c`) equals the closed-form ledger sum over the flat list of postings: bookings
+   dated inside the window, passing the filters, mapped onto `row`, attributed to the period
+   end `col`. *)
+Theorem C02_cells_noclose : forall cfg ds r part,
+  bc_valuation cfg = None -> bc_close cfg = false ->
+  balance_report cfg ds = COk (r, part) ->
+  exists dl,
+    parse_directives ds = MOk dl /\
+    new_partition (clip (mkPeriod (bc_from cfg) (bc_to cfg)) (journal_period dl)) (bc_interval cfg) (bc_last cfg) = POk part /\
+    forall row c col,
+      (rcell row (Some col, Some c) r ==
+       dvalue (period_amount (mapped_entries cfg (user_entries (span part) (periods part) (flat_postings dl))) (acc_eqb row) c col))%Q.
+Proof. exact report_cells_noclose. Qed.
+Print Assumptions C02_cells_noclose.
+
+(* the builder loses and duplicates nothing: the dated postings of its days are a permutation
+   of the journal's postings, each in the day of its date *)
+Theorem C02_builder_complete : forall dl,
+  Permutation.Permutation (days_postings (Journal.b_days (Journal.builder_of dl))) (flat_postings dl)
+  /\ days_dated (Journal.b_days (Journal.builder_of dl)).
+Proof. intros dl. split; [apply builder_of_perm|apply builder_of_dated]. Qed.
+Print Assumptions C02_builder_complete.
+
+(* a row shows, per column, the running total of the period amounts (or the period amount
+   itself with --diff), negated for equity/income/expense rows *)
+Theorem C02_row_cumulative : forall diff neg_ vals c dates,
+  Forall2 cell_is (Report.row_numbers diff neg_ vals c dates Ledger.dec_nil) (row_values diff neg_ vals c dates 0%Q).
+Proof. intros. apply row_numbers_values. reflexivity. Qed.
+Print Assumptions C02_row_cumulative.
